@@ -74,6 +74,33 @@ pub fn map_iter_check<T: El>(w: &mut MapWorld<T>, arg: u64) -> VResult<()> {
     match kind {
         IK_ITER => {
             same_multiset(walk(m.iter().map(|(k, v)| (k.id(), v.id())), n, name)?, &want, name)?;
+            if !T::ZST {
+                // Debug of the iterators shows exactly what is still to come
+                let order: Vec<(u32, u32)> = m.iter().map(|(k, v)| (k.id(), v.id())).collect();
+                let d_iter = format!("{:?}", m.iter());
+                if d_iter != format!("{:?}", order) {
+                    vbail!("mismatch", "Debug of iter() = {} but it yields {:?}", d_iter, order);
+                }
+                let d_keys = format!("{:?}", m.keys());
+                if d_keys != format!("{:?}", order.iter().map(|e| e.0).collect::<Vec<_>>()) {
+                    vbail!("mismatch", "Debug of keys() = {} but it yields {:?}", d_keys, order);
+                }
+                let d_vals = format!("{:?}", m.values());
+                if d_vals != format!("{:?}", order.iter().map(|e| e.1).collect::<Vec<_>>()) {
+                    vbail!("mismatch", "Debug of values() = {} but it yields {:?}", d_vals, order);
+                }
+                let d_im = format!("{:?}", m.iter_mut());
+                if d_im != format!("{:?}", order) {
+                    vbail!("mismatch", "Debug of iter_mut() = {} but it yields {:?}", d_im, order);
+                }
+                let mut dm: Vec<String> = format!("{:?}", m).trim_start_matches('{').trim_end_matches('}').split(", ").filter(|x| !x.is_empty()).map(|x| x.to_string()).collect();
+                dm.sort();
+                let mut wm: Vec<String> = order.iter().map(|(k, v)| format!("{}: {}", k, v)).collect();
+                wm.sort();
+                if dm != wm {
+                    vbail!("mismatch", "Debug of the map shows {:?}, elements are {:?}", dm, wm);
+                }
+            }
             // a cloned iterator continues independently, from every position
             let ps: Vec<usize> = if dense { (0..=n).collect() } else { vec![0, n / 2, n.saturating_sub(1), n] };
             for p in ps {
